@@ -254,7 +254,7 @@ func famRefs(w *bufio.Writer, seed uint64, n int) error {
 		}
 		// asynchronous unlinks and finalisation
 		var fds, maps, files []string
-		deadline := time.Now().Add(2 * time.Second)
+		deadline := time.Now().Add(20 * time.Second)
 		for {
 			fds, maps, files = nil, nil, nil
 			ents, _ := os.ReadDir("/proc/self/fd")
